@@ -104,7 +104,7 @@ func c16Gen(tier string, emit func(any)) {
 	for _, n := range []int{255, 256, 257, 512} {
 		emit(&C16Case{Family: "many-failures", Position: n})
 	}
-	for _, l := range []string{"unparseable-source", "rewrite-error", "unparseable-result", "missing-path", "missing-path-abs", "missing-path-abs-slash", "missing-path-abs-dots", "missing-path-abs-dotdot", "missing-dir-rel-dots", "missing-patch", "patch-is-directory", "malformed-patch", "missing-patches-file", "patches-file-names-missing-patch", "patches-file-unterminated-names-missing-patch", "patches-file-unterminated-names-malformed-patch", "name-too-long-for-temporary", "printer-panic", "engine-panic-after-applied-change", "unparseable-source-under-import-guard",
+	for _, l := range []string{"unparseable-source", "rewrite-error", "unparseable-result", "missing-path", "missing-path-abs", "missing-path-abs-slash", "missing-path-abs-dots", "missing-path-abs-dotdot", "missing-dir-rel-dots", "missing-patch", "patch-is-directory", "malformed-patch", "missing-patches-file", "patches-file-names-missing-patch", "patches-file-unterminated-names-missing-patch", "patches-file-unterminated-names-malformed-patch", "name-too-long-for-temporary", "printer-panic", "engine-panic-after-applied-change", "unparseable-source-under-import-guard", "patches-file-is-directory", "patches-file-first-line-too-long", "patches-file-later-line-too-long",
 		"rewrite-error-import-first", "rewrite-error-import-middle", "rewrite-error-import-last",
 		"broken-change:unknown-type", "broken-change:missing-type", "broken-change:duplicate-metavariable", "broken-change:body-not-go",
 		"broken-change:two-declarations", "broken-change:two-declarations-after-import", "broken-change:two-declarations-after-two-imports",
@@ -785,6 +785,19 @@ func c16Logical(env *core.Env, c *C16Case) core.Outcome {
 		tree["bad.patch"] = "@@\nvar x foo\n@@\n-a\n+b\n"
 		args = []string{"-p", filepath.Join(root, "p.patch"), "-p", filepath.Join(root, "bad.patch")}
 		wantInStderr = []string{"bad.patch"}
+	case "patches-file-is-directory":
+		tree["listdir/"] = ""
+		args = []string{"-P", filepath.Join(root, "listdir")}
+		wantInStderr = []string{"listdir"}
+	case "patches-file-first-line-too-long", "patches-file-later-line-too-long":
+		// a line longer than the scanner's 64 KiB token limit: the list cannot be read
+		long := strings.Repeat("x", 70000)
+		tree["list.txt"] = long + "\n" + filepath.Join(root, "p.patch") + "\n"
+		if c.Logical == "patches-file-later-line-too-long" {
+			tree["list.txt"] = filepath.Join(root, "p.patch") + "\n" + long + "\n"
+		}
+		args = []string{"-P", filepath.Join(root, "list.txt")}
+		wantInStderr = []string{"list.txt"}
 	case "missing-patches-file":
 		args = []string{"-P", filepath.Join(root, "nolist.txt")}
 		wantInStderr = []string{"nolist.txt", "no such file or directory"}
